@@ -73,6 +73,8 @@ func (nz *normalizer) WalkStatement(node SQLNode) (bool, error) {
 		nz.convertSeparator(node)
 	case *ShowFilter:
 		nz.convertShowLike(node)
+	case *DDL:
+		nz.convertColumnLiterals(node)
 	}
 	return true, nil
 }
@@ -102,6 +104,23 @@ func (nz *normalizer) convertSeparator(node *GroupConcatExpr) {
 func (nz *normalizer) convertShowLike(node *ShowFilter) {
 	if node != nil && node.Like != "" {
 		node.Like = nz.prefix
+	}
+}
+
+// convertColumnLiterals masks the DEFAULT and COMMENT literals of column definitions. The grammar
+// accepts only literals there, so they are masked with a string literal and not with a bind variable.
+func (nz *normalizer) convertColumnLiterals(node *DDL) {
+	if node.TableSpec == nil {
+		return
+	}
+	for _, column := range node.TableSpec.Columns {
+		for _, value := range []*SQLVal{column.Type.Default, column.Type.Comment} {
+			// NULL and CURRENT_TIMESTAMP are kept as ValArg: not literals
+			if value != nil && value.Type != ValArg {
+				value.Type = StrVal
+				value.Val = []byte(nz.prefix)
+			}
+		}
 	}
 }
 
